@@ -47,7 +47,7 @@ ASSUMPTIONS = [
 ]
 OBLIGATIONS = {"adapter-call": 300, "variant:contiguous": 50, "variant:strided": 50,
                "variant:fortran": 10, "variant:int": 30, "variant:pandas": 30,
-               "variant:grid": 10, "repeat-call": 100, "replayed-workload": 5}
+               "variant:grid": 10, "variant:nan": 30, "repeat-call": 100, "replayed-workload": 5}
 ANCHORED = ["hydrodiy.stat.metrics.crps", "hydrodiy.stat.metrics.anderson_darling_test",
             "hydrodiy.stat.metrics.dscore", "hydrodiy.stat.sutils.pareto_front",
             "hydrodiy.stat.sutils.lstsq", "hydrodiy.stat.armodels.armodel_sim",
@@ -61,7 +61,7 @@ VERIF = Path(__file__).resolve().parent.parent.parent
 
 class V:
     """argument variants"""
-    names = ["contiguous", "strided", "fortran", "int", "pandas"]
+    names = ["contiguous", "strided", "fortran", "int", "pandas", "nan"]
 
     def __init__(self, kind, rng):
         self.kind = kind
@@ -79,6 +79,10 @@ class V:
             return np.round(base * 4).astype(np.int64)
         if k == "pandas":
             return pd.Series(base.copy())
+        if k == "nan" and len(base) >= 6:
+            b = np.ascontiguousarray(base.copy())
+            b[[0, 1, len(b) // 2, -1]] = np.nan      # missing data at both ends
+            return b
         return np.ascontiguousarray(base.copy())
 
     def a2(self, base):
@@ -95,6 +99,10 @@ class V:
             return np.round(base * 4).astype(np.int64)
         if k == "pandas":
             return pd.DataFrame(base.copy())
+        if k == "nan" and base.shape[0] >= 6:
+            b = np.ascontiguousarray(base.copy())
+            b[[0, base.shape[0] // 2, -1], 0] = np.nan
+            return b
         return np.ascontiguousarray(base.copy())
 
 
@@ -369,6 +377,29 @@ def run(ctx):
         ctx.extra[f"monitored-calls-during-{name}"] += n
         ctx.evaluated(n)
         record(ctx, f"workload-of-{name.upper()}")
+    # ---- the hostile boundary workload of C05 (NaN / inf / empty / huge inputs),
+    # in-process under the monitor (plain build)
+    from hyverif.props import c05
+    ents = [e for e in c05.ENTRIES if e not in ("datehelpers",)]
+    for j, ent in enumerate(ents):
+        if j % ctx.nshards != ctx.shard and not ctx.replaying:
+            continue
+        r2 = np.random.default_rng([ctx.seed, j])
+        before = sum(st.calls.values())
+        t_end = time.time() + (8 if ctx.tier == "quick" else 60)
+        ncase = 0
+        for cls, thunk in c05.ENTRIES[ent](r2, "quick"):
+            if time.time() > t_end:
+                break
+            try:
+                thunk()
+            except Exception:
+                pass
+            ncase += 1
+        ctx.tag("replayed-workload")
+        ctx.extra[f"monitored-calls-during-C05:{ent}"] += sum(st.calls.values()) - before
+        ctx.evaluated(ncase)
+        record(ctx, f"C05-workload:{ent}")
     for k, v in st.calls.items():
         ctx.apis[k.replace("hydrodiy.", "")] += v
     ctx.count("argument-unchanged", int(sum(st.args_checked.values())))
